@@ -95,3 +95,36 @@ Lemma example_strings :
 Proof.
   split; (eexists; eexists; split; [vm_compute; reflexivity|]; vm_compute; repeat split; reflexivity).
 Qed.
+
+(* ---- variables and functions inside functions -------------------------------------------------------------- *)
+(* @f:1|:[:‹@f;*|_1];5 @f;   a named function calling itself by name: 5! = 120 *)
+Definition ex_src_named_rec : str := [64; 102; 58; 49; 124; 58; 91; 58; 8249; 64; 102; 59; 42; 124; 95; 49; 93; 59; 53; 32; 64; 102; 59]%N.
+(* @f:p|λ←p +;;3 @f;→g 4 ←g†   a lambda defined inside a named function reads the function's named parameter; it is
+   stored in a variable and called after the function has returned: 3 + 4 = 7 *)
+Definition ex_src_closure : str := [64; 102; 58; 112; 124; 955; 8592; 112; 32; 43; 59; 59; 51; 32; 64; 102; 59; 8594; 103; 32; 52; 32; 8592; 103; 8224]%N.
+(* 5→a λ←a 6→a;†   an assignment makes the name local to the lambda: the read before it fails although a global exists;
+   5→a λ6→a;† ←a   the lambda's assignment does not touch the global: 5 *)
+Definition ex_src_unbound : str := [53; 8594; 97; 32; 955; 8592; 97; 32; 54; 8594; 97; 59; 8224]%N.
+Definition ex_src_local : str := [53; 8594; 97; 32; 955; 54; 8594; 97; 59; 8224; 32; 8592; 97]%N.
+
+Lemma example_named_recursion :
+  exists p s, parse_source ex_src_named_rec = Ok p /\ core_program p = true
+    /\ run_machine FlNone 40 [] p = XOk s /\ run_ref FlNone 40 [] p = XOk s
+    /\ stk s = [] /\ out s = text [[49; 50; 48]]%N.
+Proof. eexists. eexists. split; [vm_compute; reflexivity|]. vm_compute. repeat split; reflexivity. Qed.
+
+Lemma example_closure :
+  exists p s, parse_source ex_src_closure = Ok p /\ core_program p = true
+    /\ run_machine FlNone 12 [] p = XOk s /\ run_ref FlNone 12 [] p = XOk s
+    /\ stk s = [] /\ out s = text [[55]]%N.
+Proof. eexists. eexists. split; [vm_compute; reflexivity|]. vm_compute. repeat split; reflexivity. Qed.
+
+Lemma example_scoping :
+  (exists p, parse_source ex_src_unbound = Ok p /\ core_program p = true
+     /\ run_machine FlNone 12 [] p = XErr EName /\ run_ref FlNone 12 [] p = XErr EName)
+  /\ (exists p s, parse_source ex_src_local = Ok p /\ core_program p = true
+     /\ run_machine FlNone 12 [] p = XOk s /\ run_ref FlNone 12 [] p = XOk s /\ out s = text [[53]]%N).
+Proof.
+  split; [eexists; split; [vm_compute; reflexivity|]; vm_compute; repeat split; reflexivity|].
+  eexists; eexists; split; [vm_compute; reflexivity|]; vm_compute; repeat split; reflexivity.
+Qed.
